@@ -157,6 +157,7 @@ def gen_cases(tier, seed):
             cfg["maxpkt"] = rng.choice([32, 36, 40, 48]) if not cfg["crc"] else rng.choice([34, 42, 50])
         cases.append({"cfg": cfg, "random": {"seed": seed * 1_000_003 + i, "K": K,
                                              "p": {"drop": 0.08, "dup": 0.04, "delay": 0.05, "quiet": 0.02, "late": 0.02, "race": 0.02}}, "K": K})
+        cfg["scribble_pdus"], cfg["scribble_user"] = i % 5 == 0, i % 7 == 0
         if i % 3 == 0:
             cases[-1]["pacing"] = rng.choice([{"src_calls": 3}, {"src_calls": 6}, {"dst_calls": 3}, {"src_calls": 2, "dst_calls": 2}, {"dst_idle": 2}])
     return cases
